@@ -191,6 +191,23 @@ func (t *Type) matches(t2 *Type) bool {
 	return left == right
 }
 
+// mergeMatchingTypes returns the more specific of two types that match,
+// e.g. [][]num for [][] and [][]num. It returns t if the types do not
+// match.
+func mergeMatchingTypes(t, t2 *Type) *Type {
+	switch {
+	case t2 == nil:
+		return t
+	case t == EMPTY_ARRAY || t == EMPTY_MAP:
+		return t2
+	case !t.matches(t2):
+		return t
+	case t2 == EMPTY_ARRAY || t2 == EMPTY_MAP || t.Sub == nil || t2.Sub == nil:
+		return t
+	}
+	return &Type{Name: t.Name, Sub: mergeMatchingTypes(t.Sub, t2.Sub)}
+}
+
 func (t *Type) infer() *Type {
 	if t.Name != ARRAY && t.Name != MAP {
 		return t
